@@ -104,12 +104,12 @@ NodeA ==
 \* C34, area nodeB: membership and epochs (quit, black lists incl. duplicates, white, commit by operator / by anybody, blocks)
 NodeB ==
     {AReg("c1", "l", "o1"), ANode("round", M_CAND, <<KS("c1", "l")>>, "")}
-    \cup {AQuit("c1", "l", "o1"), AQuit(LastV, "l", LastV)}
+    \cup {AQuit("c1", "l", "o1"), AQuit(LastV, "l", LastV), AQuit("v1", "l", "v1")}
     \cup {ANode("round", M_BLACK, ks, "") : ks \in {<<KS("c1", "l")>>, <<KS(LastV, "l")>>, <<KS("c1", "l"), KS("c1", "l")>>,
                                                     <<KS("c1", "l"), KS(LastV, "l")>>}}
     \cup {ANode("round", M_WHITE, <<KS(k, "l")>>, "") : k \in {"c1", LastV}}
     \cup {ACommit("op"), ACommit("x"), ABlock}
-    \cup (IF Rich THEN {AReg("c2", "l", "o2"), ANode("round", M_CAND, <<KS("c2", "l")>>, ""), AQuit("c2", "l", "o2"), AQuit("v1", "l", "v1")}
+    \cup (IF Rich THEN {AReg("c2", "l", "o2"), ANode("round", M_CAND, <<KS("c2", "l")>>, ""), AQuit("c2", "l", "o2")}
                         \cup {ANode("round", M_BLACK, ks, "") : ks \in {<<KS("v1", "l")>>, <<KS("c1", "l"), KS("c2", "l")>>,
                                                                         <<KS(LastV, "l"), KS(LastV, "l")>>}}
            ELSE {})
@@ -149,7 +149,7 @@ Alphabet(s) ==
        [] s.area = "sc" -> IF Mode = "C32" THEN C32ScActs ELSE ScActs
        [] s.area = "rel" -> RelActs
        [] s.area = "sv" -> SvActs)
-    \cup (IF Mode = "C32" THEN EpochActs ELSE {})
+    \cup (IF Mode = "C32" /\ (Rich \/ s.area = "rel") THEN EpochActs ELSE {})   \* quick: the epoch change is explored in area rel
 
 Enabled(s, a) ==
     /\ a.t = "block" => s.height < MaxHeight
@@ -177,7 +177,9 @@ Next == \E a \in Alphabet(R.s) :
             /\ Emit(a)
 
 Spec == Init /\ [][Next]_vars
-View == <<R.s, G, bad>>
+\* G.old (approvals of replaced requests) only classifies a C32 violation and is a function of the history that is
+\* printed with the edge; it is left out of the view so that it does not multiply the states
+View == <<R.s, G.fresh, G.appr, bad>>
 
 \* C32: at most two (method, request) sign sets at a time, the second one with the single approver v1
 TwoLabels == LET ne == R.s.signs
